@@ -274,7 +274,32 @@ class Tree:
                 "retarget_interval": consensus.BLOCKS_BETWEEN_TARGET_READJUSTMENT,
                 "chain": [x.serialize().hex() for x in self.blocks]})
         self.blocks.append(b)
+        self.audit(b)
         return b
+
+    def audit(self, b):
+        """independent bookkeeping of the new block's ledger state: the parent's unspent set with the block applied"""
+        parent = self.cs.unspent_transaction_outs_by_hash[b.previous_block_hash]
+        want = {(r.hash, r.index): (o.value, o.public_key.public_key) for r, o in parent.items()}
+        for n, tx in enumerate(b.transactions):
+            if n > 0:
+                for i in tx.inputs:
+                    want.pop((i.output_reference.hash, i.output_reference.index), None)
+            for k, o in enumerate(tx.outputs):
+                want[(tx.hash(), k)] = (o.value, o.public_key.public_key)
+        got = {(r.hash, r.index): (o.value, o.public_key.public_key)
+               for r, o in self.cs.unspent_transaction_outs_by_hash[b.hash()].items()}
+        if got != want:
+            sub = consensus.get_block_subsidy(b.height)
+            info = {"block": b.serialize().hex(), "height": b.height, "chain": [x.serialize().hex() for x in self.blocks],
+                    "unspent_total": sum(v for v, _ in got.values()),
+                    "parent_total_plus_subsidy": sum(o.value for o in parent.values()) + sub}
+            props = ["C03"]
+            kind = "the unspent set recorded at a block is not its parent's set with the block applied"
+            if info["unspent_total"] > info["parent_total_plus_subsidy"]:
+                props.append("C02")
+                kind += " (and its total exceeds the parent's total plus the subsidy)"
+            raise kit.PropertyViolation(props, {**info, "kind": kind})
 
     def grow(self, n, fork_prob=0.3):
         for _ in range(n):
